@@ -4,6 +4,7 @@ package main
 // hooks), log one event per protocol point / API return, for validation by specs/Trace_Reader.tla.
 
 import (
+	"math"
 	"encoding/json"
 	"flag"
 	"fmt"
@@ -49,6 +50,22 @@ type readerRun struct {
 }
 
 // expectedSlice returns the bytes a correct reader delivers for the block range of the run.
+// tlcInt: TLC integers are 32 bit; a range bound beyond 2^30 means the same as 2^30 for every stream the drivers build
+func tlcInt(v int) int {
+	if v > 1<<30 {
+		return 1 << 30
+	}
+	return v
+}
+
+type hugeStream struct {
+	base   readerRun
+	stream []byte
+	orig   []byte
+	B      uint
+	dseed  int64
+}
+
 func expectedSlice(orig []byte, B int, from, to int) []byte {
 	if from == 0 && to == 0 {
 		return orig
@@ -92,7 +109,7 @@ func decodeHookEvent(e hk.Ev) tr.Ev {
 // execReaderRun drives one Reader over the given stream and returns the trace events of the run.
 func execReaderRun(run *readerRun, stream []byte, expected []byte, inject func(pt int, id int32, a, b int64, buf []byte)) []tr.Ev {
 	desc, _ := json.Marshal(run)
-	evs := []tr.Ev{{"ev": "Reset", "run": run.Run, "mode": run.Mode, "total": len(expected), "from": run.R.From, "to": run.R.To,
+	evs := []tr.Ev{{"ev": "Reset", "run": run.Run, "mode": run.Mode, "total": len(expected), "from": tlcInt(run.R.From), "to": tlcInt(run.R.To),
 		"ck": run.W.Ck, "jobs": run.R.Jobs, "desc": string(desc)}}
 	rec := hk.NewRec(run.Seed)
 	rec.Perturb = run.Perturb
@@ -205,6 +222,7 @@ type caseT struct {
 // enumReaderCases enumerates complete case families (all cut positions, all payload bytes, all ranges).
 func enumReaderCases(mode string, seed int64, thorough bool, n int) []func() (caseT, bool) {
 	var gens []func() (caseT, bool)
+	var hugeStreams []hugeStream
 	rnd := rand.New(rand.NewSource(seed*48271 + 11))
 	nstreams := 6
 	maxLen := 700
@@ -331,6 +349,7 @@ func enumReaderCases(mode string, seed int64, thorough bool, n int) []func() (ca
 			}
 		case "c11x":
 			nblk := (size + int(B) - 1) / int(B)
+			hugeStreams = append(hugeStreams, hugeStream{base, stream, orig, B, dseed})
 			for from := 1; from <= nblk+2; from++ {
 				for to := from; to <= nblk+3; to++ {
 					run := base
@@ -343,6 +362,24 @@ func enumReaderCases(mode string, seed int64, thorough bool, n int) []func() (ca
 					gens = append(gens, func() (caseT, bool) { return caseT{&r, stream, exp, nil}, true })
 					k++
 				}
+			}
+		}
+	}
+	if mode == "c11x" && len(hugeStreams) > 0 {
+		// range bounds beyond 2^31: "to the end" spelled as a huge number, ranges entirely beyond the last block
+		huge := [][2]int{{1, math.MaxInt64}, {2, 1<<32 + 4}, {1 << 31, 0}, {1<<32 + 1, 0}, {3, 1 << 31}, {1 << 31, 1<<31 + 5}, {1, math.MaxInt32}, {2, math.MaxInt32 + 1},
+			{1<<32 + 2, 1<<32 + 3}, {math.MaxInt64 - 1, math.MaxInt64}}
+		for hi2, hs := range hugeStreams {
+			for bi, ft := range huge {
+				run := hs.base
+				run.Run, run.Seed = k, hs.dseed+int64(7000+bi)
+				run.R = kz.RCfg{Jobs: []uint{1, 2, 3, 4, 8}[(bi+hi2)%5], From: ft[0], To: ft[1]}
+				run.Lens = lensMenu[(bi*7+hi2)%len(lensMenu)]
+				exp := expectedSlice(hs.orig, int(hs.B), ft[0], ft[1])
+				r := run
+				st := hs.stream
+				gens = append(gens, func() (caseT, bool) { return caseT{&r, st, exp, nil}, true })
+				k++
 			}
 		}
 	}
@@ -570,6 +607,16 @@ func planReaderRun(mode string, k int, seed int64, thorough bool) (*readerRun, [
 		}
 		if rnd.Intn(2) == 0 && len(run.Chunks) == 0 {
 			run.Chunks = []int{pick(rnd, []int{1000, 4096, 65536, 100000})}
+		}
+		if k%3 == 1 {
+			// a source failure while a block OUTSIDE a requested block range is being read is a source failure like any other
+			nblk := (size + int(B) - 1) / int(B)
+			run.R.From = 1 + rnd.Intn(nblk+1)
+			run.R.To = run.R.From + rnd.Intn(nblk+2)
+			if rnd.Intn(3) == 0 {
+				run.R.To = 0
+			}
+			expected = expectedSlice(orig, int(B), run.R.From, run.R.To)
 		}
 	case "c17r":
 		run.CloseAt = rnd.Intn(6)
